@@ -151,6 +151,31 @@ def check_props(pid):
     return dict(theorems=thms, examples=examples, axioms=axioms, obligations=obligations,
                 discharged=discharged, problems=problems)
 
+def coqchk(pid):
+    """thorough tier: re-check Props/<pid>.vo and everything it depends on with the independent
+    checker, list the axioms of the whole closure.  Cached by the hash of all .v sources (one run
+    takes 1-15 minutes and is deterministic)."""
+    h = hashlib.sha1()
+    for rel in coq_sources():
+        h.update(rel.encode()); h.update(open(os.path.join(COQ, rel), 'rb').read())
+    key = pid + ':' + h.hexdigest()
+    cache_p = os.path.join(BUILD, 'coqchk_cache.json')
+    cache = json.load(open(cache_p)) if os.path.exists(cache_p) else {}
+    if key in cache:
+        return dict(cache[key], cached=True)
+    t0 = time.time()
+    p = sh(['timeout', '3000', 'coqchk', '-silent', '-o', '-Q', COQ, 'WM', 'WM.Props.' + pid], check=False)
+    out = p.stdout or ''
+    m = re.search(r'\* Axioms:(.*?)\n\s*\n\* Constants', out, re.S)
+    axioms = [a.strip() for a in (m.group(1).split('\n') if m else []) if a.strip() and a.strip() != '<none>']
+    res = dict(ok=(p.returncode == 0 and m is not None), axioms=axioms, seconds=round(time.time() - t0, 1),
+               summary=out[-600:] if p.returncode else 'CONTEXT SUMMARY: axioms %s; no type-in-type, no unsafe fixpoints, no assumed positivity' % (axioms or '<none>'))
+    if p.returncode == 0 and ('type-in-type: <none>' not in out or 'unsafe (co)fixpoints: <none>' not in out or 'positivity is assumed: <none>' not in out):
+        res['ok'] = False; res['summary'] = out[-800:]
+    cache[key] = res
+    json.dump(cache, open(cache_p, 'w'))
+    return res
+
 def workdir(pid):
     d = os.path.join(BUILD, 'work', pid)
     os.makedirs(d, exist_ok=True)
